@@ -335,10 +335,11 @@ def ss_batched_task(task, tr):
     with tracing() as t:
         d = t.dag
         # row 0: all samples at 0; row 1: one tip sampled after the first coalescence
-        rows = [[0.0, 0.0, 0.0, 1.0, 2.5][:2 * n - 1] if n == 3 else None,
-                [0.0, 0.0, 1.7, 1.0, 2.5][:2 * n - 1] if n == 3 else None]
+        # (>= 2 lineages are alive in the interval whose position differs between the rows)
+        rows = [[0.0, 0.0, 0.0, 0.0, 1.0, 2.0, 3.0], [0.0, 0.0, 0.0, 1.5, 1.0, 2.0, 3.0]]
+        assert n == 4
         hv = [new_vars(f'h{b}', torch.tensor(rows[b], dtype=torch.float64)) for b in range(2)]
-        th = [new_vars(f'theta{b}', torch.tensor([1.5 + b, 2.5 + b], dtype=torch.float64)) for b in range(2)]
+        th = [new_vars(f'theta{b}', torch.tensor([1.5 + b, 2.5 + b, 3.5 + b], dtype=torch.float64)) for b in range(2)]
         H = from_ids(torch.stack([x._ids for x in hv]))
         TH = from_ids(torch.stack([x._ids for x in th]))
         try:
@@ -479,7 +480,7 @@ def tasks_for(tier):
         if N == 3:
             ts.append(('gmrf', N, 'time-aware', True, False))
             ts.append(('gmrf', N, 'time-aware', False, False))
-    ts += [('integrated-time', 3, True), ('integrated-time', 3, False), ('ss-batched', 3)]
+    ts += [('integrated-time', 3, True), ('integrated-time', 3, False), ('ss-batched', 4)]
     n = 3
     for perm in itertools.permutations(range(n)):
         ts.append(('coalint', n, perm))
